@@ -226,6 +226,10 @@ Definition core_did_parse (data : list N) : outcome (list N * list N) did_err :=
   else if ends_with_pct data then Err EMethodId
   else obind (tp_parse data) (fun c => check_validity data c).
 
+(* TryFrom<BaseDIDUrl> for CoreDID: check_validity on the third-party value, WITHOUT the two guards of CoreDID::parse *)
+Definition core_did_from_base (data : list N) : outcome (list N * list N) did_err :=
+  obind (tp_parse data) (fun c => check_validity data c).
+
 (* RelativeDIDUrl setters: None = component cleared *)
 Definition set_path (v : option (list N)) : outcome (option (list N)) did_err :=
   match v with
